@@ -224,7 +224,8 @@ class VTKWriter:
                 fieldRecord = self.nodalFields[field]
                 for sphere in self.spheres:
                     uNew = np.vstack( (fieldRecord.data,
-                                       default_values(fieldRecord.fieldType, fieldRecord.dataType)) )
+                                       np.asarray(default_values(fieldRecord.fieldType, fieldRecord.dataType),
+                                                  dtype=fieldRecord.data.dtype)) )
                     fieldRecord = self.VTKFieldRecord(uNew,
                                                       fieldRecord.fieldType,
                                                       fieldRecord.dataType)
@@ -254,7 +255,8 @@ class VTKWriter:
                 fieldRecord = self.cellFields[field]
                 for e in range(nContactEdges):
                     uNew = np.vstack( (fieldRecord.data,
-                                       default_values(fieldRecord.fieldType, fieldRecord.dataType)) )
+                                       np.asarray(default_values(fieldRecord.fieldType, fieldRecord.dataType),
+                                                  dtype=fieldRecord.data.dtype)) )
                     fieldRecord = self.VTKFieldRecord(uNew,
                                                       fieldRecord.fieldType,
                                                       fieldRecord.dataType)
